@@ -26,7 +26,7 @@ from lib.bench.wb import WBScript
 
 LEVEL = "exploration"
 RULE = ("one case = one CPU-less SoCCore configuration (bus standard wishbone/axi-lite/axi x bus width 32/64 x shared/crossbar x CSR "
-        "data width 8/32 x big/little ordering x paging x address width; random peripherals with storages/statuses of 1..64 bits, a CSR "
+        "data width 8/32 x big/little ordering x paging x address width; random peripherals with storages/statuses of 1..160 bits (those above 64 bits have no C accessor and are walked from the published address), a CSR "
         "memory, integrated ROM/SRAM/main RAM with random init at random sizes). The exported JSON, CSV, C header (addresses AND accessor "
         "bodies), SVD and mem header are parsed; every published register is written/read exactly as its accessor does through a bus "
         "master added with bus.add_master, and the register's own storage/status signal, all other registers and the Memory arrays are "
@@ -35,9 +35,10 @@ RULE = ("one case = one CPU-less SoCCore configuration (bus standard wishbone/ax
 ASSUMPTIONS = ["migen tracer shim (names only)", "the bus master is a 32-bit Wishbone port (adapters inserted by SoCBusHandler.add_adapter are part of the path)",
                "csr_read_simple/csr_write_simple are 32-bit accesses at the given address (hw/common.h)", "ctrl_reset is not written (it resets the SoC)"]
 FLOORS = {"quick": {"registers_replayed": 600, "accessor_reads": 600, "accessor_writes": 300, "socs_built": 40, "mem_region_words_checked": 200,
-                    "cross_format_entries_compared": 2000, "image_bytes_checked": 12000},
+                    "cross_format_entries_compared": 2000, "image_bytes_checked": 12000, "registers_wider_than_64_bits": 40},
           "thorough": {"registers_replayed": 9000, "accessor_reads": 9000, "accessor_writes": 4500, "socs_built": 600,
-                       "mem_region_words_checked": 3000, "cross_format_entries_compared": 30000, "image_bytes_checked": 300000}}
+                       "mem_region_words_checked": 3000, "cross_format_entries_compared": 30000, "image_bytes_checked": 300000,
+                       "registers_wider_than_64_bits": 600}}
 SHARD_TIMEOUT = {"quick": 1500, "thorough": 3400}
 N_SAMPLES = 2
 
@@ -70,6 +71,9 @@ def gen_periph_specs(rng, nper):
         for i in range(rng.randint(2, 8)):
             kind = rng.choice(["storage", "storage", "status"])
             size = rng.choice([1, 7, 8, 9, 16, 31, 32, 33, 40, 48, 63, 64, rng.randint(1, 64)])
+            if rng.random() < 0.12:
+                # wider than any C accessor type: no <reg>_read()/_write() is generated, the address cursor must still advance
+                size = rng.choice([65, 96, 128, rng.randint(65, 160)])
             regs.append({"kind": kind, "name": "r%d" % i, "size": size, "atomic": kind == "storage" and rng.random() < 0.3,
                          "reset": rng.getrandbits(size)})
         specs.append({"name": "per%d" % pi, "regs": regs, "mem": ({"width": 32, "depth": rng.choice([8, 32])} if rng.random() < 0.35 else None)})
@@ -258,6 +262,17 @@ def run_soc(case):
             size = r["size"]
             mask = (1 << size) - 1
             st["regs"] += 1
+            if size > 64 and name not in hd["write"] and name not in hd["read"]:
+                # no C accessor for this width: software walks the published address word by word in the configured ordering
+                nr = (size + busword - 1) // busword
+                order = [(nr - 1 - k) if case["ordering"] == "big" else k for k in range(nr)]
+                if r["kind"] == "storage":
+                    hd["write"][name] = [(order[k] * busword, pub["addr"] + 4 * k) for k in range(nr)]
+                    hd["ctype"][name] = size
+                wide_read = [(pub["addr"] + 4 * k, order[k] * busword) for k in range(nr)]
+                st["wide"] = st.get("wide", 0) + 1
+            else:
+                wide_read = None
             if r["kind"] == "storage" and name in hd["write"]:
                 val = rng.getrandbits(hd["ctype"].get(name, 64)) | 1
                 before = yield ("call", lambda s: {n: umask(x.storage, s.sample[x.storage]) for n, x in storages.items()})
@@ -282,7 +297,19 @@ def run_soc(case):
                 yield ("wait", 2)
             else:
                 expect = None
-            if name in hd["read"] and expect is not None:
+            if wide_read is not None and expect is not None:
+                got = 0
+                for (addr, lsb) in wide_read:
+                    res = yield ("read", addr >> 2)
+                    st["reads"] += 1
+                    if res.get("hung"):
+                        sim_errs.append({"kind": "accessor-read-never-acknowledged", "register": name, "address": addr})
+                        return
+                    got |= (res["dat_r"] & ((1 << busword) - 1)) << lsb
+                if got != expect:
+                    sim_errs.append({"kind": "accessor-read-returns-other-value", "register": name, "published": pub,
+                                     "register_holds": hex(expect), "accessor_returned": hex(got), "accessor": wide_read})
+            elif name in hd["read"] and expect is not None:
                 got = 0
                 for (addr, shift) in hd["read"][name]:
                     res = yield ("read", addr >> 2)
@@ -435,6 +462,7 @@ def run_shard(shard):
         st = r["st"]
         col.ev("registers_replayed", st["regs"])
         col.ev("accessor_reads", st["reads"])
+        col.ev("registers_wider_than_64_bits", st.get("wide", 0))
         col.ev("accessor_writes", st["writes"])
         col.ev("mem_region_words_checked", st["memw"])
         col.ev("cross_format_entries_compared", st["xfmt"])
